@@ -101,7 +101,7 @@ pub fn cells(tier: Tier) -> Vec<CellPlan> {
         Op::Unmark(1),
         Op::Mark(1),
     ];
-    c.env = Env { hold_acks: false, hold_updates: 2, mutations: MutMenu::Hold, leftover_choice: false };
+    c.env = Env { hold_acks: false, hold_updates: 2, mutations: MutMenu::Hold, leftover_choice: false, lossy: false };
     c.oracles = Oracles { c16: true, c03: true, c01: true, ..Default::default() };
     c.rounds = if q { 3 } else { 4 };
     v.push(plan(c, if q { 1 } else { 2 }, 2.0));
@@ -119,7 +119,7 @@ pub fn cells(tier: Tier) -> Vec<CellPlan> {
         Op::Mut(0, TA),
         Op::Despawn(1),
     ];
-    c.env = Env { hold_acks: false, hold_updates: 2, mutations: MutMenu::Hold, leftover_choice: false };
+    c.env = Env { hold_acks: false, hold_updates: 2, mutations: MutMenu::Hold, leftover_choice: false, lossy: false };
     c.oracles = Oracles { c16: true, c01: true, ..Default::default() };
     c.rounds = if q { 3 } else { 4 };
     v.push(plan(c, if q { 1 } else { 2 }, 2.0));
@@ -139,7 +139,7 @@ pub fn cells(tier: Tier) -> Vec<CellPlan> {
         Op::Mut(1, TA),
         Op::Ins(1, TB),
     ];
-    c.env = Env { hold_acks: false, hold_updates: 1, mutations: MutMenu::Hold, leftover_choice: false };
+    c.env = Env { hold_acks: false, hold_updates: 1, mutations: MutMenu::Hold, leftover_choice: false, lossy: false };
     c.oracles = Oracles { c16: true, c01: true, ..Default::default() };
     c.rounds = if q { 3 } else { 4 };
     v.push(plan(c, if q { 1 } else { 1 }, 2.0));
